@@ -336,8 +336,9 @@ def run(chk, prog, tier):
     check_stale_count(chk, prog)
     check_notify(chk, prog)
     check_clear_resets(chk, prog)
-    from . import join_common
+    from . import join_common, scan_common
     join_common.check_constraint_eval(chk, prog)
+    scan_common.check_scan_batches(chk, prog, floor=13)
 
 
 FAST_SUBSET_TABLE = {
